@@ -1061,6 +1061,28 @@ func triggerRevived(w *World, v Violation) string {
 	// itself rests on a fresh access request (the delete cleared the verdict), so
 	// the request that revives is not excused, only those after it.
 	strict := v.Class == "data_on_invalidated_grant" || v.Class == "call_on_invalidated_grant"
+	if strict {
+		// ... but while the delete still waits in the connection's own queue (the
+		// subscription is loading or re-checking: the client has not seen the
+		// delete event when it makes the request) the verdict has not been cleared
+		// yet, although the cache has already cut the subscription off: the same
+		// finding, one step earlier
+		for _, id := range c.Ref.ReqOrder {
+			q := c.Ref.Reqs[id]
+			if q.Resp == 0 || q.RespT != v.T || !(q.RID == v.RID || q.ResRID == v.RID) || q.SentT < delT {
+				continue
+			}
+			seen := false
+			for _, ev := range c.Ref.Events {
+				if ev.RID == v.RID && ev.Event == "delete" && ev.T > delT && ev.T < q.SentT {
+					seen = true
+				}
+			}
+			if !seen {
+				return "deleted-resource-revived"
+			}
+		}
+	}
 	for _, id := range c.Ref.ReqOrder {
 		q := c.Ref.Reqs[id]
 		if q.SentT > delT && !q.IsError && q.Resp > 0 && (q.RID == v.RID || q.ResRID == v.RID) && (q.Action == "subscribe" || q.Action == "get" || q.ResRID != "") {
